@@ -169,17 +169,18 @@ def ftextLine (fn : String) (s : List Nat) (alts : List (Nat × String)) : Strin
   let r : String × String × String :=
     if s = [] then ("ok", "0", "-")
     else match best with
-      | some (k, v) => if v = "ovf" then ("refused", "-", "-") else ("ok", toString k, v)
+      | some (k, v) => if v = "ovf" then ("refused", "BadValue", "-") else ("ok", toString k, v)
       | none =>
         if s.all isSpace then ("ok", if fn = "string" then toString ws else "0", "-")
-        else ("refused", "-", "-")
+        else ("refused", "BadType", "-")
+  let nn := if r.1 = "ok" then r.2.1 else "-"
   let oks := (List.range (s.length + 1)).filterMap fun k =>
     if (s.take k).all isSpace then some s!"dst=ok n={k} out=- nodst=ok n={k} ; *" else
     match alts.find? (·.1 = k) with
     | some (_, v) => if v = "ovf" then none else some s!"dst=ok n={k} out={v} nodst=ok n={k} ; *"
     | none => none
   let spec := " || ".intercalate (oks ++ ["dst=refused n=- out=- nodst=refused n=- ; *"])
-  s!"R dst={r.1} n={r.2.1} out={r.2.2} nodst={r.1} n={r.2.1} | C - | I ret={if r.1 = "ok" then r.2.1 else "err"} | S {spec}"
+  s!"R dst={r.1} n={nn} out={r.2.2} nodst={r.1} n={nn} | C - | I ret={r.2.1} | S {spec}"
 
 def step (_ : Unit) (w : List String) : Unit × String :=
   match w with
